@@ -326,6 +326,16 @@ func servicePrograms() []prog {
 			Svcs: []*pj.Service{{Name: "DepOnly", Methods: []pj.Method{{"Z", "D", "D", false, false}}}}}
 		out = append(out, prog{"services", &pj.Program{Name: "services/imported-io", Main: "main.proto", Files: []*pj.File{main, dep}}})
 	}
+	// import directories: "common/base.proto" exists as given AND under the import directory (a stale copy with
+	// other fields), "dep/x.proto" only under it; the name as given is searched first
+	{
+		main := &pj.File{Path: "svc/main.proto", Pkg: "ps", Imports: []string{"common/base.proto", "dep/x.proto"},
+			Svcs: []*pj.Service{{Name: "S", Methods: []pj.Method{{"M", "common.Base", "dep.X", false, false}}}}}
+		cur := &pj.File{Path: "common/base.proto", Pkg: "common", Msgs: []*pj.Msg{{Name: "Base", Fields: []*pj.Field{pj.F("caller", 1, pj.String), pj.F("addr", 2, pj.String), pj.F("ts", 3, pj.Int64), pj.F("flag", 4, pj.Bool)}}}}
+		stale := &pj.File{Path: "third_party/common/base.proto", Pkg: "common", Msgs: []*pj.Msg{{Name: "Base", Fields: []*pj.Field{pj.F("caller", 1, pj.Int32), pj.F("old", 9, pj.Bytes)}}}}
+		x := &pj.File{Path: "third_party/dep/x.proto", Pkg: "dep", Imports: []string{"common/base.proto"}, Msgs: []*pj.Msg{{Name: "X", Fields: []*pj.Field{pj.FM("b", 1, "common.Base"), pj.F("n", 2, pj.Sint32)}}}}
+		out = append(out, prog{"services", &pj.Program{Name: "services/import-dirs-shadowed", Main: "svc/main.proto", Files: []*pj.File{main, cur, stale, x}, ImportDirs: []string{"third_party"}}})
+	}
 	return out
 }
 
